@@ -21,6 +21,7 @@ RULE = ("one run = 2-3 simulated OS processes (baton-passing threads) each doing
         "invariants are evaluated at every yield point; distinct = distinct sequences of "
         "process switches; non-trivial = at least two participants were inside run() at the "
         "same time or one started while another was leaving")
+RULE += "; since the 4th session the crash of a 'crash' run is in 35 % of the runs placed in the last leaver's clean-up (after its successful rmdir)"
 COMPONENTS = {
     "real": ["ebpfcat.ebpfcat.ParallelEtherCat.run/get_ethertype/get_fmmu_addr",
              "ebpfcat.lock.FMMULock/LockFile", "EtherXDP generation, XDP.attach/detach, "
